@@ -91,7 +91,7 @@ PErr == IF PFirstBad # 0 THEN <<PSpecErr(PFirstBad), "init">>
 \* the domain of the as-it-is model: no molecule is its own ligand (the code's behaviour then depends on the dict implementation)
 InDomain == ~PSelf
 \* the P-layer depends on the case only: evaluated once per behaviour and kept
-PLayer == [attach |-> PAttach, err |-> PErr, chained |-> PChained]
+PLayer == [attach |-> PAttach, err |-> PErr, chained |-> PChained, self |-> PSelf]
 NodeIdx(gg) == UNION {{<<m, i>> : i \in 1..Len(gg[m].nodes)} : m \in 1..N}
 
 (* ================================================================== I-layer *)
@@ -184,6 +184,8 @@ Build == /\ pc = "build"
          /\ pc' = "split" /\ mi' = 1
          /\ UNCHANGED <<case, pl, dev, si, hk, total, hm, lms, defs, err, ap, out>>
 
+PosOf(gg, m, k) == LET S == {i \in 1..Len(gg[m].nodes) : gg[m].nodes[i].key = k} IN IF S = {} THEN None ELSE gg[m].nodes[CHOOSE i \in S : TRUE].pos
+LigIdx(gg) == {p \in NodeIdx(gg) : gg[p[1]].nodes[p[2]].lm # 0}
 HasKey(gm, k) == \E i \in 1..Len(gm.nodes) : gm.nodes[i].key = k
 SetPos(gg, m, k, p) == [gg EXCEPT ![m].nodes = [i \in 1..Len(gg[m].nodes) |-> IF gg[m].nodes[i].key = k THEN [gg[m].nodes[i] EXCEPT !.pos = p] ELSE gg[m].nodes[i]]]
 RECURSIVE HandFold(_, _, _)
@@ -210,9 +212,14 @@ SplitMol == /\ pc = "split"
                             /\ UNCHANGED <<case, pl, dev, si, hk, total, hm, lms, defs, err, snap, ap, out>>
 
 \* atoms of a residue: the node position when the residue is backmapped, the supplied coordinates otherwise
+\* for every extra node of the build: 1 iff the ligand residue ended at this copy's position and the anchor has not moved since
+NearFinal == {<<p[1], snap[p[1]].nodes[p[2]].key,
+                IF /\ PosOf(g, snap[p[1]].nodes[p[2]].lm, snap[p[1]].nodes[p[2]].ln) = <<p[1], snap[p[1]].nodes[p[2]].key>>
+                   /\ LET hn == (CHOOSE e \in snap[p[1]].edges : e[2] = snap[p[1]].nodes[p[2]].key)[1] IN PosOf(g, p[1], hn) = PosOf(snap, p[1], hn)
+                THEN 1 ELSE 0>> : p \in LigIdx(snap)}
 Backmap == /\ pc = "backmap"
            /\ ap' = [m \in 1..N |-> [i \in 1..Len(g[m].nodes) |-> IF g[m].nodes[i].bm THEN g[m].nodes[i].pos ELSE <<m, g[m].nodes[i].key>>]]
-           /\ pc' = "write" /\ lab' = Lb("backmap", 0, {}, "")
+           /\ pc' = "write" /\ lab' = Lb("backmap", 0, NearFinal, "")
            /\ UNCHANGED <<case, pl, dev, si, hk, total, hm, lms, defs, g, err, mi, snap, out>>
 
 IsLigMol(m) == \E i \in 1..Len(g[m].nodes) : g[m].nodes[i].pos[1] # m
@@ -231,9 +238,7 @@ Next == Parse \/ Find \/ InitEnd \/ Connect \/ Build \/ SplitMol \/ Backmap \/ W
 (* ================================================================== laws: I-layer |= P-layer *)
 AtEnd == pc \in {"done", "error"}
 AfterSplit == pc \in {"backmap", "write", "done"}
-PosOf(gg, m, k) == LET S == {i \in 1..Len(gg[m].nodes) : gg[m].nodes[i].key = k} IN IF S = {} THEN None ELSE gg[m].nodes[CHOOSE i \in S : TRUE].pos
 Struct(gm) == [nodes |-> [i \in 1..Len(gm.nodes) |-> <<gm.nodes[i].key, gm.nodes[i].rn, gm.nodes[i].id, gm.nodes[i].lm>>], edges |-> gm.edges]
-LigIdx(gg) == {p \in NodeIdx(gg) : gg[p[1]].nodes[p[2]].lm # 0}
 Ligated(gg) == {<<p[1], (CHOOSE e \in gg[p[1]].edges : e[2] = gg[p[1]].nodes[p[2]].key)[1], gg[p[1]].nodes[p[2]].lm, gg[p[1]].nodes[p[2]].ln>> : p \in LigIdx(gg)}
 NLigated(gg) == Cardinality(LigIdx(gg))
 
